@@ -14,6 +14,10 @@ const CTXS: &[&str] = &[
     "(map (lambda (x) (if (= x 2) • x)) '(1 2 3))",
     "(if • 'yes 'no)",
     "(car (list • 2))",
+    // the partially built result of a constructor form (quasiquote list / vector template, vector) is re-used on re-entry
+    "`#(a ,(list 'h) ,• c)",
+    "`(a ,(list 'h) ,• c)",
+    "(vector 'a (list 'h) • 'c)",
     // heap-allocated operands evaluated before the capture: they must keep their values across re-entries
     "(list (list 'p 'q) (vector 1 \"s\") •)",
     "(cons (string-append \"a\" \"b\") •)",
@@ -66,7 +70,7 @@ fn body(ctx: &str, recv: &str, store: u8, inloop: bool) -> String {
     // the log keeps the first-pass result itself (a later re-entry must not change an object already delivered),
     // except where the context has heap-allocated operands: there it keeps a copy, so that those operands stay
     // reachable only through the continuation
-    let logged = if ctx.contains("(list 'p 'q)") || ctx.contains("string-append") || ctx.contains("(list 'h)") { "(cp r)" } else { "r" };
+    let logged = if ctx.contains("(list 'p 'q)") || ctx.contains("string-append") || ctx.contains("(apply list (list 'h)") { "(cp r)" } else { "r" };
     format!(
         "(let ((loc 1) (cell (list 1))) (let ((r {})) (set! loc (+ loc 1)) (set-car! cell (+ (car cell) 1)) (set! log (cons (list 'after {} loc (car cell)) log)){}))",
         site, logged, tail
@@ -201,7 +205,7 @@ pub fn run(ctx: &Ctx) -> i32 {
     rep.transitions = Some(*acc.counters.get("model_steps").unwrap_or(&0));
     rep.traces_validated = Some(acc.nontrivial);
     rep.rule = format!(
-        "The full product: call/cc position ({} contexts: operand 2 of 3, last operand, variadic argument, let binding, tail of a procedure, inside a map callback, if test, nested operand, after heap-allocated operands (list, cons, apply)) x receiver ({}: returns normally, escapes at once, escapes from a nested operand, a builtin, stores k in a variable / list / closure / vector-then-escapes) x surrounding frame (top level, variadic frame, after a different-arity tail call, 60 non-tail frames deep) x same-form re-entry loop (no / twice via a counter) x every sequence of <= {} later top-level invocation forms out of 8 (direct, guarded loop, inside map / for-each callbacks, inside the extent of a second continuation, from depth 3, from an operand position, re-entering the second continuation) = {} programs; each program also mutates a captured local and captured data between capture and re-entry and logs it (the log keeps the delivered result itself - a re-entry must not change an object already delivered - or, in the contexts with heap-allocated operands, a copy, so that those operands stay reachable only through the continuation). A collection is forced before every top-level form (heap audit attached). Every form's value and the log are compared with the reference CEK machine. Non-trivial = agreement on every form.",
+        "The full product: call/cc position ({} contexts: operand 2 of 3, last operand, variadic argument, let binding, tail of a procedure, inside a map callback, if test, nested operand, after heap-allocated operands (list, cons, apply), as a later element of a quasiquoted vector / list template and of a vector call) x receiver ({}: returns normally, escapes at once, escapes from a nested operand, a builtin, stores k in a variable / list / closure / vector-then-escapes) x surrounding frame (top level, variadic frame, after a different-arity tail call, 60 non-tail frames deep) x same-form re-entry loop (no / twice via a counter) x every sequence of <= {} later top-level invocation forms out of 8 (direct, guarded loop, inside map / for-each callbacks, inside the extent of a second continuation, from depth 3, from an operand position, re-entering the second continuation) = {} programs; each program also mutates a captured local and captured data between capture and re-entry and logs it (the log keeps the delivered result itself - a re-entry must not change an object already delivered - or, in the contexts with heap-allocated operands, a copy, so that those operands stay reachable only through the continuation). A collection is forced before every top-level form (heap audit attached). Every form's value and the log are compared with the reference CEK machine. Non-trivial = agreement on every form.",
         CTXS.len(), RECVS.len(), max_inv, progs.len()
     );
     rep.extra("programs", json!(progs.len()));
